@@ -293,7 +293,27 @@ pub fn strategy() -> BoxedStrategy<Case> {
         analytic_jac,
         script,
     };
-    prop_oneof![2 => general.prop_map(mk), 1 => lin.prop_map(mk)].boxed()
+    // exact grids: dyadic span, first_step = max_step = span / 2^m and a loose tolerance, so that every step has the
+    // maximal length and the last one lands on xend without being shortened
+    let exact = (linear_spec(3, false, 0.3, 1.5), prop_oneof![Just(0.0), Just(1.0), Just(2.0), Just(-1.0), Just(-3.0)], -2i32..=3, 1i32..=4, any::<bool>(), any_method(), any::<bool>(), any::<u16>())
+        .prop_map(|(prob, x0, j, m, back, method, analytic_jac, k)| {
+            let len = 2f64.powi(j);
+            let frac = 2f64.powi(-m);
+            Case { prob, span: Span { x0, xend: if back { x0 - len } else { x0 + len } }, method, rtol: 1e-2, atol_rel: 1.0, first_step: Some(frac), max_step: Some(frac), analytic_jac, script: Script::Interrupt(k) }
+        });
+    // a first step (and step bound) longer than the whole interval: the solver has to land on xend at once
+    let overlong = (prob_spec(3, 0.3, 2.0), common(), fr(1.05, 3.0), fr(1.0, 1.5)).prop_map(|(prob, (span, method, re, ar, _fs, _ms, analytic_jac), f, g)| Case {
+        prob,
+        span,
+        method,
+        rtol: 10f64.powf(-re),
+        atol_rel: 10f64.powf(ar),
+        first_step: Some(f),
+        max_step: Some(f * g),
+        analytic_jac,
+        script: Script::Noop(vec![0]),
+    });
+    prop_oneof![10 => general.prop_map(mk), 5 => lin.prop_map(mk), 1 => exact, 1 => overlong].boxed()
 }
 
 pub fn run(ctx: &Ctx, known: &[Known]) -> Report {
